@@ -29,6 +29,10 @@ CLAIMED = {
          "The reference graph of every data set of <=4 (thorough 5) sequences drawn from a pool of one-difference variants x counts x ratio is computed by TLC and compared with the graph built by the real code (hook VerifBuildGraph) for several worker counts and input orders; the atomic-increment pool is model-checked for all interleavings (the racy variant must lose an update), and the racy schedule is forced on the real code by a barrier gate on a star data set for 1200-6000 rounds; random families over a,c,g,t incl. reported mutations are validated by CleanTrace; the binary must give identical annotations for --max-cpu 1/2/8/32, -d 2 and -r 0.5.",
          "Trusted: TLC, the hook VerifBuildGraph (same calls as CLIOBIClean). A pure data race is reproduced statistically: a miss is possible, a false alarm is not. Distance > 1 and the ratio option are checked relationally only at binary level.",
          "DESIGN.md 5 C13"),
+ "C05": ("TLC model checking of Pipeline.tla (confluence, single owner, conservation, termination for all interleavings) + replay of every emit schedule on the real worker pool running the real per-record workers (gates) + TLC validation (CommandTrace) of the ten commands run under many (max-cpu, batch-size, GOMAXPROCS, repetition) configurations",
+         "Pipeline.tla proves that the stream delivered by source -> W workers -> SortBatches -> Rebatch is a function of the input for every interleaving (W<=3, <=3-4 batches, every keep mask); each emit schedule of the model is forced with gates on the real MakeISliceWorker pool running the real reverse-complement, PCR and demultiplexing workers and the formatted output must equal the one-worker reference; the ten record-wise commands are run on the wolf tutorial reads over a grid of parallelism settings and CommandTrace accepts only byte-identical outputs.",
+         "Relational oracle (equality across configurations). Trusted: TLC, the gates/probes of the harness. Grid: 9 configurations x 2 repetitions x 12 command lines in quick, 36 x 3 in thorough; input = 250/1000 read pairs of /repo/sample.",
+         "DESIGN.md 5 C05"),
 }
 
 NOT_YET = "check not built yet in this round (planned, see DESIGN.md 10); not claimed"
